@@ -803,6 +803,37 @@ func (e *Env) sockDo(cl *http.Client, path string, h http.Header, body []byte) *
 // until the status arrives (observed: well under a millisecond).
 const holdTimeout = 10 * time.Second
 
+// holdWatch is the watchdog of a call whose client keeps its send side open:
+// when it fires it records whether the request is still inside larking (the
+// dump must be taken before the client gives up, which unblocks the server).
+type holdWatch struct {
+	mu    sync.Mutex
+	fired bool
+	dump  string
+	t     *time.Timer
+}
+
+func startHoldWatch(onFire func()) *holdWatch {
+	w := &holdWatch{}
+	w.t = time.AfterFunc(holdTimeout, func() {
+		d := stuckInLarking()
+		w.mu.Lock()
+		w.fired, w.dump = true, d
+		w.mu.Unlock()
+		if onFire != nil {
+			onFire()
+		}
+	})
+	return w
+}
+
+func (w *holdWatch) stop() (bool, string) {
+	w.t.Stop()
+	w.mu.Lock()
+	defer w.mu.Unlock()
+	return w.fired, w.dump
+}
+
 // stuckInLarking returns an excerpt of the goroutine dump when a request is
 // still inside the mux's gRPC serving code ("" otherwise).
 func stuckInLarking() string {
@@ -881,8 +912,11 @@ func (o *Obs) setStatusText(code, msg, det string) {
 
 func (e *Env) doGRPC(c *Case, id string) *Obs {
 	timeout := sockTimeout
+	var hw *holdWatch
 	if c.Hold {
-		timeout = holdTimeout
+		timeout = holdTimeout + 2*time.Second
+		hw = startHoldWatch(nil)
+		defer hw.stop()
 	}
 	ctx, cancel := context.WithTimeout(context.Background(), timeout)
 	defer cancel()
@@ -950,8 +984,8 @@ func (e *Env) doGRPC(c *Case, id string) *Obs {
 	o.Details = st.Proto()
 	if err != nil && ctx.Err() != nil {
 		o.Timeout = true
-		if c.Hold {
-			o.Stuck = stuckInLarking()
+		if hw != nil {
+			_, o.Stuck = hw.stop()
 		}
 	}
 	return o
@@ -1017,10 +1051,18 @@ func (e *Env) doGRPCH2C(c *Case, id string) *Obs {
 		// included) has been read
 		pr, pw := io.Pipe()
 		go pw.Write(c.grpcBody(id)) //nolint
-		o = e.sockDoBody(e.H2, e.Std.Full(c.Method), h, pr, holdTimeout)
+		// x/net's transport does not watch the request context while it is
+		// blocked on the request body: the watchdog takes the goroutine dump
+		// and then breaks the body
+		hw := startHoldWatch(func() { pw.CloseWithError(context.DeadlineExceeded) })
+		o = e.sockDoBody(e.H2, e.Std.Full(c.Method), h, pr, holdTimeout+5*time.Second)
 		pw.Close()
-		if o.Timeout {
-			o.Stuck = stuckInLarking()
+		if fired, dump := hw.stop(); fired {
+			o.Timeout = true
+			o.Stuck = dump
+			if o.Err == "" {
+				o.Err = "no complete response while the request body was open"
+			}
 		}
 	} else {
 		o = e.sockDo(e.H2, e.Std.Full(c.Method), h, c.grpcBody(id))
